@@ -32,6 +32,10 @@ func tryInitDefaults(val reflect.Value) reflect.Value {
 	t := val.Type()
 
 	var initializer Initializer
+	if k := t.Kind(); (k == reflect.Interface || k == reflect.Ptr) && val.IsNil() {
+		// nothing to initialize (a field of interface type Initializer, say)
+		return val
+	}
 	if t.Implements(iInitializer) {
 		initializer = val.Interface().(Initializer)
 		initializer.InitDefaults()
